@@ -1,9 +1,9 @@
 (* C12 -- stereo signs are permutation-consistent.  Statements only; proofs in Proofs.StereoProofs.
    The two translation tables are regenerated from chython/algorithms/stereo.py on every run. *)
 From Coq Require Import ZArith List Bool.
-From Model Require Import PyBase Graph Stereo StereoRegistry StereoSmiles StereoFix StereoWedge.
+From Model Require Import PyBase Graph Stereo StereoRegistry StereoSmiles StereoFix StereoWedge StereoParse.
 From Gen Require Import StereoTables.
-From Proofs Require Import StereoProofs StereoRegistryProofs StereoRegistryDisjoint StereoSmilesProofs StereoFixProofs StereoWedgeProofs.
+From Proofs Require Import StereoProofs StereoRegistryProofs StereoRegistryDisjoint StereoSmilesProofs StereoFixProofs StereoWedgeProofs StereoParseProofs.
 Import ListNotations.
 Open Scope Z_scope.
 
@@ -449,3 +449,38 @@ Theorem C12_wedge_example :
   api_drops_smiles_cache true = true.
 Proof. exact wedge_example. Qed.
 Print Assumptions C12_wedge_example.
+
+(* ====================================================================================================================== *)
+(* direction marks of the SMILES parser (Model.StereoParse): the two atoms of a marked bond hold opposite views of one mark -- for
+   chain bonds and for EVERY spelling of a ring-closure bond with one mark (at the opening or closing digit, the other digit bare or
+   with an explicit '-'); with marks at both digits each atom keeps its own *)
+Theorem C12_closure_marks_single : forall (v : Z) (plain : option btok), plain = None \/ plain = Some (1, 1) ->
+  closure_marks (Some (9, v)) plain = Ok (Some (mark_of (9, v)), Some (negb (mark_of (9, v)))) /\
+  closure_marks plain (Some (9, v)) = Ok (Some (negb (mark_of (9, v))), Some (mark_of (9, v))).
+Proof. exact closure_marks_single. Qed.
+Print Assumptions C12_closure_marks_single.
+
+Theorem C12_parser_marks_opposite :
+  (forall ob cb x y, marked ob && marked cb = false -> closure_marks ob cb = Ok (Some x, Some y) -> y = negb x) /\
+  (forall t x y, chain_marks t = (Some x, Some y) -> y = negb x).
+Proof. exact (conj closure_marks_opposite chain_marks_opposite). Qed.
+Print Assumptions C12_parser_marks_opposite.
+
+(* the reference substituent of __differentiation is chosen by Morgan class only: equivariant under renumbering, independent of the
+   order of the two substituents when their classes differ, and it is a minimum *)
+Theorem C12_differentiation_reference : forall (w : Z -> Z) n1 n2,
+  (forall (s : Z -> Z) (w' : Z -> Z), w' (s n1) = w n1 -> w' (s n2) = w n2 -> ct_ref w' (s n1) (s n2) = s (ct_ref w n1 n2)) /\
+  (w n1 <> w n2 -> ct_ref w n1 n2 = ct_ref w n2 n1) /\
+  (ct_ref w n1 n2 = n1 \/ ct_ref w n1 n2 = n2) /\ w (ct_ref w n1 n2) <= w n1 /\ w (ct_ref w n1 n2) <= w n2.
+Proof.
+  exact (fun w n1 n2 => conj (fun s w' => ct_ref_equivariant s w w' n1 n2) (conj (ct_ref_order_independent w n1 n2) (ct_ref_is_min w n1 n2))).
+Qed.
+Print Assumptions C12_differentiation_reference.
+
+Theorem C12_parse_marks_example :
+  closure_marks (Some (1, 1)) (Some (9, 1)) = Ok (Some false, Some true) /\
+  closure_marks (Some (9, 1)) (Some (9, 0)) = Ok (Some true, Some false) /\
+  closure_marks (Some (1, 2)) (Some (9, 1)) = Err IncorrectSmiles /\
+  ct_ref (fun x => if x =? 7 then 1 else 5) 3 7 = 7 /\ ct_ref (fun _ => 2) 3 7 = 3.
+Proof. exact parse_marks_example. Qed.
+Print Assumptions C12_parse_marks_example.
